@@ -253,3 +253,47 @@ func stopRequestTakerStays(c *core.Ctx, cs *chanSites, inScope func(*core.Fn) bo
 	}
 	c.Check(n >= 1, rule, "stop handshakes found", 0, "no stop handshake found; confirmed by hand: UpdateSender.destroyCh (Destroy → sender)")
 }
+
+// noCallbackUnderLock: calling a function VALUE (a parameter or field of func type) while holding a lock runs code the
+// lock analysis cannot see under that lock — here: the client manager calling back into the table that owns it, which
+// takes the table lock inside the registry lock while every route change takes them the other way round.  Rule: in the
+// functions in scope no call of a func-typed variable has a lock in its may-lockset.
+func noCallbackUnderLock(c *core.Ctx, lp *core.LockProg) {
+	const rule = "no-callback-under-lock"
+	n := 0
+	for _, f := range lp.Fns {
+		if f.Decl.Body == nil || lp.Sets[f] == nil {
+			continue
+		}
+		core.InspectNoLit(f.Decl.Body, func(nd ast.Node) bool {
+			call, ok := nd.(*ast.CallExpr)
+			if !ok {
+				return true
+			}
+			var v *types.Var
+			switch x := core.Unparen(call.Fun).(type) {
+			case *ast.Ident:
+				v, _ = f.Pkg.TypesInfo.ObjectOf(x).(*types.Var)
+			case *ast.SelectorExpr:
+				v, _ = f.Pkg.TypesInfo.ObjectOf(x.Sel).(*types.Var)
+			}
+			if v == nil {
+				return true
+			}
+			if _, isSig := v.Type().Underlying().(*types.Signature); !isSig {
+				return true
+			}
+			n++
+			var held []string
+			for h := range lp.Sets[f].MayAt(call) {
+				held = append(held, h)
+			}
+			sort.Strings(held)
+			c.Analysed(f)
+			c.Check(len(held) == 0, rule, fmt.Sprintf("%s calls the function value %s", f.Name(), core.ExprString(call.Fun)), call.Pos(),
+				fmt.Sprintf("a function value is called with %v held: whatever the callback locks is acquired inside that lock, invisibly to the lock-order analysis — a table's withdrawal run from inside the client manager's lock takes the table lock after the registry lock, the reverse of every route change, and the two block each other for good", held))
+			return true
+		})
+	}
+	c.Check(true, rule, fmt.Sprintf("%d calls of function values examined", n), 0, "")
+}
